@@ -18,7 +18,8 @@ META = {
                  '2-D grid': 'width,height in 1..4 (1..5)',
                  'coordinates': 'every triple with each coordinate in -1..max(extent,1) (inside and one step outside '
                                 'on every side), plus ids computed for every in-range triple',
-                 'cell component': 'v = 100x+10y+z (distinguishes every cell)'},
+                 'cell component': 'v = 100x+10y+z (distinguishes every cell)',
+                 'bystanders': 'three worlds of other shapes are built and used after the world under test'},
     'bounds': {'quick': '64 + 5 + 16 shapes', 'thorough': '125 + 8 + 25 shapes'},
     'assumptions': ['a zero extent denotes a single layer at coordinate 0 (as the position table and the '
                     'neighbourhood code treat it)'],
@@ -49,6 +50,13 @@ def check_shape(case):
     kind, dims = case['kind'], case['dims']
     model = Core.Model(seed=1)
     world = mk(model, kind, dims)
+    if case.get('bystanders', True):
+        # other grid worlds of other shapes built (and used) afterwards in the same process must not disturb this one
+        others = [Envs.GridWorld(Core.Model(seed=2), 3, 4), Envs.DiscreteWorld(Core.Model(seed=3), 2, 3, 2),
+                  Envs.LineWorld(Core.Model(seed=4), 7)]
+        for o in others:
+            o.add_cell_component('v', lambda pos, cells: -1)
+            o.get_cell(0)
     d3 = list(dims) + [0] * (3 - len(dims))
     ext = [max(e, 1) for e in d3]
     ncells = ext[0] * ext[1] * ext[2]
